@@ -49,28 +49,49 @@ theorem chunksGo_eq (n : Nat) (hn : 0 < n) : ∀ (fuel : Nat) (l : Bytes), l.len
       simp only [List.length_drop, List.length_cons] at hl ⊢
       omega
 
-/-- the line loop of `write`: one `write_all(chunk); write_all(b"\n")` per chunk (whatever helper the loop became:
-`try_for_each` closure or `for` loop — see `write_eq_model`) -/
-theorem each_eq (cs : List Bytes) : ∀ w : Bytes,
-    Gen.SrcFasta.write_each1 writeAllOp cs w = Res.ok (.ok (), w ++ cs.flatMap (· ++ [10])) := by
-  induction cs with
-  | nil => intro w; simp [Gen.SrcFasta.write_each1]
-  | cons c cs ih => intro w; simp [Gen.SrcFasta.write_each1, ih]
-
 /-- **`Writer::write`** appends exactly the model writer's bytes, for every record and every wrap `≥ 1` (`None`: one
-line).  `Some(0)` is outside the domain (the pinned code panics in `chunks(0)`). -/
+line).  `Some(0)` is outside the domain (the pinned code panics in `chunks(0)`).  The proof knows two shapes of the line loop
+and tries them in turn (identifiers of the other shape do not exist; `first` catches that): (a) the pinned
+`chunks(w).try_for_each(closure)` = helper `write_each1`; (b) a `for` loop over the chunks that writes each line through a
+private helper method found in the source (`write_sequence_line`: line + LF) = helpers `write_for1`, `writeSequenceLine` —
+the refactoring of seeded C11-H2. -/
 theorem write_eq_model (w id : Bytes) (desc : Option Bytes) (seq : Bytes) (wrap : Option Nat)
     (hw : ∀ n, wrap = some n → 1 ≤ n) :
     Gen.SrcFasta.write writeAllOp w wrap id desc seq =
       Res.ok (.ok (), w ++ writeFastaRec wrap { id := id, desc := desc, seq := seq }) := by
-  cases wrap with
-  | none => simp [Gen.SrcFasta.write, writeRecordHeader_eq_model, writeFastaRec]
-  | some n =>
-    have hn := hw n rfl
-    have e1 : Rs.chunks seq n = Res.ok (Fastx.chunks n seq) := by
-      rw [Rs.chunks_ok (by omega), chunksGo_eq n (by omega) _ _ (Nat.le_refl _)]
-    simp [Gen.SrcFasta.write, writeRecordHeader_eq_model, writeFastaRec, Rs.expect, e1, each_eq]
-
+  have hchunks : ∀ n, 1 ≤ n → Rs.chunks seq n = Res.ok (Fastx.chunks n seq) := by
+    intro n hn
+    rw [Rs.chunks_ok (by omega), chunksGo_eq n (by omega) _ _ (Nat.le_refl _)]
+  first
+  | -- (a) `try_for_each`
+    (have each : ∀ (cs : List Bytes) (w : Bytes),
+          Gen.SrcFasta.write_each1 writeAllOp cs w = Res.ok (.ok (), w ++ cs.flatMap (· ++ [10])) := by
+        intro cs
+        induction cs with
+        | nil => intro w; simp [Gen.SrcFasta.write_each1]
+        | cons c cs ih => intro w; simp [Gen.SrcFasta.write_each1, ih]
+     cases wrap with
+     | none => simp [Gen.SrcFasta.write, writeRecordHeader_eq_model, writeFastaRec]
+     | some n =>
+       have hn := hw n rfl
+       simp [Gen.SrcFasta.write, writeRecordHeader_eq_model, writeFastaRec, Rs.expect, hchunks n hn, each])
+  | -- (b) `for` loop + line helper
+    (have hl : ∀ (w : Bytes) (lw : Option Nat) (line : Bytes),
+          Gen.SrcFasta.writeSequenceLine writeAllOp w lw line = Res.ok (.ok (), w ++ line ++ [10]) := by
+        intro w lw line; simp [Gen.SrcFasta.writeSequenceLine]
+     have hf : ∀ (lw : Option Nat) (cs : List Bytes) (w : Bytes),
+          Gen.SrcFasta.write_for1 writeAllOp lw cs w = Res.ok (.next (w ++ cs.flatMap (· ++ [10]))) := by
+        intro lw cs
+        induction cs with
+        | nil => intro w; simp [Gen.SrcFasta.write_for1]
+        | cons c cs ih => intro w; simp [Gen.SrcFasta.write_for1, hl, ih]
+     cases wrap with
+     | none => simp [Gen.SrcFasta.write, writeRecordHeader_eq_model, writeFastaRec, hl]
+     | some n =>
+       have hn := hw n rfl
+       have hpos : 0 < n := by omega
+       have hne : n ≠ 0 := by omega
+       simp [Gen.SrcFasta.write, writeRecordHeader_eq_model, writeFastaRec, Rs.expect, hchunks n hn, hf, hl, hpos, hne])
 
 /-! ## Reader -/
 
